@@ -97,6 +97,9 @@ pub struct Pipe<Front: SocketHandler, L: ListenerHandler> {
     frontend_buffer: Checkout,
     pub frontend_readiness: Readiness,
     frontend_status: ConnectionStatus,
+    /// The frontend hung up while bytes it had sent were still on their way to
+    /// the backend: the session lives until they are delivered, then closes.
+    frontend_hung_up: bool,
     frontend_token: Token,
     frontend: Front,
     listener: Rc<RefCell<L>>,
@@ -180,6 +183,7 @@ impl<Front: SocketHandler, L: ListenerHandler> Pipe<Front, L> {
                 event: Ready::EMPTY,
             },
             frontend_status,
+            frontend_hung_up: false,
             frontend_token,
             frontend,
             listener,
@@ -491,9 +495,44 @@ impl<Front: SocketHandler, L: ListenerHandler> Pipe<Front, L> {
     }
 
     pub fn frontend_hup(&mut self, metrics: &mut SessionMetrics) -> SessionResult {
+        // A client that sends its last bytes and closes is seen here with
+        // those bytes still in `frontend_buffer` or in the kernel (the FIN
+        // travels in the same readiness batch as the data). They were sent
+        // before the close: deliver them to the backend first, as
+        // `backend_hup` does for the other direction.
+        let request_is_inflight = self.frontend_buffer.available_data() > 0
+            || self.frontend_readiness.event.is_readable()
+            || self.splice_in_pending() > 0;
+        let backend_usable = self.backend_socket.is_some()
+            && !matches!(
+                self.backend_status,
+                ConnectionStatus::Closed | ConnectionStatus::ReadOpen
+            );
+        if request_is_inflight && backend_usable && !self.frontend_hung_up {
+            debug!(
+                "{} Pipe::frontend_hup: frontend connection closed, keeping alive to deliver inflight data.",
+                log_context!(self)
+            );
+            self.frontend_hung_up = true;
+            if self.frontend_readiness.event.is_readable() {
+                self.frontend_readiness.interest.insert(Ready::READABLE);
+            }
+            if self.frontend_buffer.available_data() > 0 {
+                self.backend_readiness.interest.insert(Ready::WRITABLE);
+            }
+            return SessionResult::Continue;
+        }
         self.log_request_success(metrics);
         self.frontend_status = ConnectionStatus::Closed;
         SessionResult::Close
+    }
+
+    /// True once a hung-up frontend has nothing left for the backend.
+    fn frontend_drained_after_hup(&self) -> bool {
+        self.frontend_hung_up
+            && self.frontend_buffer.available_data() == 0
+            && !self.frontend_readiness.event.is_readable()
+            && self.splice_in_pending() == 0
     }
 
     pub fn backend_hup(&mut self, metrics: &mut SessionMetrics) -> SessionResult {
@@ -614,6 +653,14 @@ impl<Front: SocketHandler, L: ListenerHandler> Pipe<Front, L> {
                 return SessionResult::Close;
             }
             SocketResult::Closed => {
+                if self.frontend_buffer.available_data() > 0 && self.backend_socket.is_some() {
+                    // end of stream behind the last bytes: they go to the
+                    // backend before the session is closed
+                    self.frontend_hung_up = true;
+                    self.frontend_readiness.event.remove(Ready::READABLE);
+                    self.backend_readiness.interest.insert(Ready::WRITABLE);
+                    return SessionResult::Continue;
+                }
                 self.reset_readiness_for_close();
                 self.log_request_success(metrics);
                 return SessionResult::Close;
@@ -737,6 +784,11 @@ impl<Front: SocketHandler, L: ListenerHandler> Pipe<Front, L> {
         trace!("{} pipe back_writable", log_context!(self));
 
         if self.frontend_buffer.available_data() == 0 {
+            if self.frontend_drained_after_hup() {
+                self.reset_readiness_for_close();
+                self.log_request_success(metrics);
+                return SessionResult::Close;
+            }
             self.frontend_readiness.interest.insert(Ready::READABLE);
             self.backend_readiness.interest.remove(Ready::WRITABLE);
             return SessionResult::Continue;
@@ -751,10 +803,19 @@ impl<Front: SocketHandler, L: ListenerHandler> Pipe<Front, L> {
             while socket_res == SocketResult::Continue {
                 // no more data in buffer, stop here
                 if self.frontend_buffer.available_data() == 0 {
-                    self.frontend_readiness.interest.insert(Ready::READABLE);
-                    self.backend_readiness.interest.remove(Ready::WRITABLE);
                     count!(names::backend::BACK_BYTES_OUT, sz as i64);
                     metrics.backend_bout += sz;
+                    if self.frontend_hung_up
+                        && !self.frontend_readiness.event.is_readable()
+                        && self.splice_in_pending() == 0
+                    {
+                        // everything the departed client had sent is delivered
+                        self.reset_readiness_for_close();
+                        self.log_request_success(metrics);
+                        return SessionResult::Close;
+                    }
+                    self.frontend_readiness.interest.insert(Ready::READABLE);
+                    self.backend_readiness.interest.remove(Ready::WRITABLE);
                     return SessionResult::Continue;
                 }
 
@@ -1341,7 +1402,10 @@ impl<Front: SocketHandler, L: ListenerHandler> SessionState for Pipe<Front, L> {
         let mut counter = 0;
 
         if self.frontend_readiness.event.is_hup() {
-            return SessionResult::Close;
+            if self.frontend_hup(metrics) == SessionResult::Close {
+                return SessionResult::Close;
+            }
+            self.frontend_readiness.event.remove(Ready::HUP);
         }
 
         while counter < MAX_LOOP_ITERATIONS {
